@@ -100,6 +100,9 @@ def check_copies(ctx, bp):
         seen.add(k)
         n += 1
         bad = sorted(t for t in site.origins if t not in ('F',) and not t.endswith(':self'))
+        # working storage kept on the model (a private attribute that is neither the potentials nor the marginal cache): writing into it is
+        # this method's own business as long as it never leaves the method - the return is checked for that below
+        bad = [t for t in bad if not (t.startswith('S:_') and t[2:] not in ('potentials', 'marginals'))]
         ctx.ob('bp-on-copies', bp, site.node, not bad,
                '%s acts on %s' % (site.what, 'objects allocated in this call' if not bad else
                                   'the caller\'s potentials (%s): the parameters handed in are modified' % ', '.join(bad)))
@@ -108,6 +111,11 @@ def check_copies(ctx, bp):
     # returned value must not alias the input either
     ok = not ({'P:' + pot, 'Pe:' + pot} & (set(s.ret.own) | set(s.ret.elem)))
     ctx.ob('bp-on-copies', bp, bp.node, ok, 'the returned marginals do not alias the caller\'s potentials', construct='return of belief_propagation')
+    kept = sorted(t for t in (set(s.ret.own) | set(s.ret.elem)) if t.startswith('S:_'))
+    ctx.ob('bp-on-copies', bp, bp.node, not kept,
+           'the returned marginals are tables of their own%s' % ('' if not kept else
+           ': they are (views of) working storage kept on the model (%s), which the next call of belief_propagation overwrites - the marginals '
+           'returned by this call change with it' % ', '.join(kept)), construct='ownership of the returned marginals')
 
 
 class BPTerms:
